@@ -253,6 +253,79 @@ def main():
                 if not (np.abs(ub - uref).max() <= 1e-3 * np.abs(uref).max()):
                     res.fail(f"backend={backend} loses accuracy on a small right-hand side", f"loads of order {scale:g}: solution differs from the direct one by {np.abs(ub - uref).max() / np.abs(uref).max():.2e} (relative)", dict(sim=kind, load_scale=scale, backend=backend))
 
+    # ---------------- B1d: every backend on ill-conditioned systems (slender cantilever strips) ----------------
+    # A strip L x h meshed with one layer of QUAD4 elements of length 1 (aspect ratio 1/h), clamped on x = 0, surface load on x = L:
+    # the condition number of the reduced stiffness matrix grows like (L/h)^4 (1e7 .. 1e9 here) while the system stays small.
+    # Whatever backend the user selects, the property promises that the returned vector satisfies the assembled equations on the free
+    # dofs to solver accuracy (scipy's iterative methods stop at |r| <= 1e-5 |b|: 1e-4 is asked for), holds the prescribed values, and
+    # is the solution of the stated system. Independent expectation: dense solve (numpy) of the reduced system read from Get_K_C_M_F.
+    # Every backend starts cold, on a new simulation. A backend that stops early and hands back its last iterate fails here.
+    import random as _random
+    rngI = _random.Random(args.seed * 7919 + 404)        # its own stream: the draws of the scenarios below stay what they were
+    strips = [(30.0, 0.25, 210e9, 1e3), (50.0, 0.25, 210e9, 1e3),
+              (float(rngI.randint(20, 32)), rngI.choice([0.25, 0.5]), rngI.choice([1.0, 8.0, 210e9]), rngI.choice([1e-3, 1.0, 1e3]))]
+    if args.tier != "quick":
+        strips += [(60.0, 0.5, 210e9, 1e3), (40.0, 0.25, 1.0, 1e-3), (100.0, 1.0, 210e9, 1e3)]
+    # a stagnating restarted gmres runs its 10 N restart cycles (time ~ N^2): it is run on the smaller systems only
+    gmres_max_dofs = 140 if args.tier == "quick" else 260
+    ill_backends = list(BACKENDS)
+    try:
+        from EasyFEA.Simulations import Solvers as _Solvers
+        ill_backends += [b_ for b_, ok_ in (("pypardiso", getattr(_Solvers, "CAN_USE_PYPARDISO", False)), ("petsc", getattr(_Solvers, "CAN_USE_PETSC", False))) if ok_]
+    except Exception:  # noqa: BLE001
+        pass
+    for Ls, hs, Es, qs in strips:
+        meshI = M.mesh_2d("QUAD4", a=Ls, b=hs, h=1.0)
+        clampI = meshI.Nodes_Conditions(lambda x, y, z: x == 0)
+        tipI = meshI.Nodes_Conditions(lambda x, y, z, Ls=Ls: x == Ls)
+
+        def mki():
+            s_ = Simulations.Elastic(meshI, Models.Elastic.Isotropic(2, E=Es, v=0.3, planeStress=True, thickness=1.0))
+            s_.add_dirichlet(clampI, [0.0, 0.0], ["x", "y"])
+            s_.add_surfLoad(tipI, [-qs], ["y"])
+            return s_
+        identI = dict(scenario="slender cantilever strip, clamped on x=0, add_surfLoad(x=L, [-q], ['y']), new simulation per backend", elemType="QUAD4", L=Ls, h=hs, meshSize=1.0,
+                      isOrganised=True, E=Es, v=0.3, planeStress=True, thickness=1.0, q=qs, Ndof=int(meshI.Nn * 2))
+        try:
+            s0 = mki()
+            ptI = s0.problemType
+            KI, _, _, FI = s0.Get_K_C_M_F(ptI)
+            bI = np.asarray(FI.todense()).ravel() + np.asarray(s0.Bc_vector_Neumann(ptI)).ravel()
+            nI = KI.shape[0]
+            knownI = np.array(sorted(set(int(d) for d in np.concatenate([2 * clampI, 2 * clampI + 1]))))
+            freeI = np.setdiff1d(np.arange(nI), knownI)
+            KIff = KI.toarray()[np.ix_(freeI, freeI)]
+            condI = float(np.linalg.cond(KIff))
+            udense = np.zeros(nI)
+            udense[freeI] = np.linalg.solve(KIff, bI[freeI])
+        except Exception as ex:  # noqa: BLE001
+            res.fail("ill-conditioned system cannot be assembled", f"{type(ex).__name__}: {str(ex)[:150]}", identI)
+            continue
+        bnorm = float(np.linalg.norm(bI[freeI]))
+        res.count("ill-conditioned strips")
+        for backend in ill_backends:
+            if backend == "gmres" and nI > gmres_max_dofs:
+                continue
+            idb = dict(identI, backend=backend, cond=f"{condI:.1e}")
+            res.case(("ill-conditioned", Ls, hs, Es, qs, backend), nontrivial=condI > 1e6)
+            try:
+                sI = mki()
+                sI.solver = SolverType(backend)
+                uI = np.asarray(sI.Solve()).ravel().copy()
+            except Exception as ex:  # noqa: BLE001
+                res.fail(f"backend {backend} raises on an ill-conditioned system", f"simu.solver = {backend}: Solve raised {type(ex).__name__}: {str(ex)[:150]}", idb)
+                continue
+            relres = float(np.linalg.norm((KI @ uI - bI)[freeI])) / bnorm
+            errI = float(np.abs(uI - udense).max()) / float(np.abs(udense).max())
+            if not (np.abs(uI[knownI]).max() <= 0.0):
+                res.fail(f"constrained-value ill-conditioned solver={backend}", f"the clamped dofs hold values up to {np.abs(uI[knownI]).max():.2e} instead of 0", idb)
+            if not (relres <= 1e-4):
+                res.fail(f"unconverged solution returned silently solver={backend}", f"strip {Ls:g} x {hs:g} ({nI} dofs, condition number {condI:.1e}), simu.solver = {backend}: Solve returns, without error or warning, "
+                         f"a vector with |K u - F| / |F| = {relres:.2e} on the free dofs (1e-5 is the tolerance of the backend) that differs from the dense direct solution by {errI:.2e} (relative, max norm)", idb)
+            elif not (errI <= 1e-2):
+                res.fail(f"backend={backend} differs on an ill-conditioned system", f"strip {Ls:g} x {hs:g} ({nI} dofs, condition number {condI:.1e}): the solution of simu.solver = {backend} differs from the dense direct "
+                         f"solution by {errI:.2e} (relative, max norm) although |K u - F| / |F| = {relres:.2e}", idb)
+
     # ---------------- B2: orphan node ----------------
     mesh0 = M.mesh_2d("TRI3", a=2.0, b=1.0, h=1.0)
     coord = np.vstack([mesh0.coord, [[5.0, 5.0, 0.0]]])
